@@ -211,12 +211,14 @@ fn main() {
     let runs: usize = args[3].parse().unwrap();
     let mut rng = StdRng::seed_from_u64(env_u64("VERIF_SEED", 0) ^ 0xC03);
     install_hook();
+    start_watchdog(env_u64("VERIF_WATCHDOG", 90));
     let (mut nev, mut panics) = (0usize, 0usize);
     let mut findings: Vec<Value> = Vec::new();
     let t_start = std::time::Instant::now();
     for run in 0..runs {
         if std::env::var("VERIF_RW_DEBUG").is_ok() && run % 50 == 0 { eprintln!("run {run} at {:.1}s", t_start.elapsed().as_secs_f64()); }
         let kind = ["manual", "runner", "eqsat"][run % 3];
+        tick(&format!("rewriting run {run}"));
         let start_txt = gen_term(&mut rng, if run % 2 == 0 { 3 } else { 4 });
         let k = rng.gen_range(4..=12);
         let rules: Vec<RuleJ> = rf.rules.choose_multiple(&mut rng, k).cloned().collect();
